@@ -52,9 +52,9 @@ def stepOk (d : StepDef) : Bool :=
 def progOk (p : Program) : Bool :=
   p.pipes.all fun pd =>
     pd.parser.isNone &&
-    pd.groups.all fun g => match g.2 with
-      | some ss => ss.all stepOk
-      | none => true
+    pd.groups.all fun g => match g.2.items with
+      | .ok ss => ss.all stepOk        -- every item the body denotes (also of a string / mapping body)
+      | .error _ => true                -- a body without a length runs nothing
 
 /-! ### the invariant -/
 
@@ -374,16 +374,25 @@ theorem switchStep_callKey (s s1 : St) (c : CofCfg) (h : switchStep s = (s1, .ca
 theorem stepInit_ok (d : StepDef) (kind : StepKind) (h : stepInit d = .ok kind) :
     ∃ n, d.name = some n ∧ stepKind? n = some kind := by
   unfold stepInit at h
-  cases hn : d.name with
-  | none => rw [hn] at h; cases h
-  | some n =>
-    rw [hn] at h
+  cases hr : d.rawName with
+  | some v =>
+    rw [hr] at h
     simp only [] at h
-    refine ⟨n, rfl, ?_⟩
     repeat' split at h
-    all_goals first
-      | (cases h; assumption)
-      | cases h
+    all_goals cases h
+  | none =>
+    rw [hr] at h
+    simp only [] at h
+    cases hn : d.name with
+    | none => rw [hn] at h; cases h
+    | some n =>
+      rw [hn] at h
+      simp only [] at h
+      refine ⟨n, rfl, ?_⟩
+      repeat' split at h
+      all_goals first
+        | (cases h; assumption)
+        | cases h
 
 theorem stepOk_kind (d : StepDef) (kind : StepKind) (hd : stepOk d = true) (h : stepInit d = .ok kind) :
     allowedKind kind = true := by
@@ -399,27 +408,29 @@ theorem stepOk_kind (d : StepDef) (kind : StepKind) (hd : stepOk d = true) (h : 
 theorem progOk_groupSteps (prog : Program) (hp : progOk prog = true) (pipe g : String) :
     ∀ d, d ∈ groupSteps prog pipe g → stepOk d = true := by
   intro d hd
-  unfold groupSteps at hd
-  split at hd
-  · rename_i pd hf
-    split at hd
-    · rename_i ss hg
-      have hmem : pd ∈ prog.pipes := List.mem_of_find?_eq_some hf
-      simp only [progOk, List.all_eq_true, Bool.and_eq_true] at hp
-      have h2 := (hp pd hmem).2
-      unfold PipeDef.group? at hg
-      cases hfg : pd.groups.find? (·.1 == g) with
-      | none => rw [hfg] at hg; cases hg
-      | some gg =>
-        rw [hfg] at hg
-        simp only [Option.map_some, Option.some.injEq] at hg
-        have hgm : gg ∈ pd.groups := List.mem_of_find?_eq_some hfg
-        have := h2 gg hgm
-        rw [hg] at this
+  unfold groupSteps getPipelineSteps at hd
+  cases hf : prog.find? pipe with
+  | none => rw [hf] at hd; cases hd
+  | some pd =>
+    rw [hf] at hd
+    simp only [] at hd
+    have hmem : pd ∈ prog.pipes := List.mem_of_find?_eq_some hf
+    simp only [progOk, List.all_eq_true, Bool.and_eq_true] at hp
+    have h2 := (hp pd hmem).2
+    unfold PipeDef.group? at hd
+    cases hfg : pd.groups.find? (·.1 == g) with
+    | none => rw [hfg] at hd; cases hd
+    | some gg =>
+      rw [hfg] at hd
+      simp only [Option.map_some] at hd
+      have hgm : gg ∈ pd.groups := List.mem_of_find?_eq_some hfg
+      have := h2 gg hgm
+      cases hit : gg.2.items with
+      | error e => rw [hit] at hd; cases hd
+      | ok ss =>
+        rw [hit] at hd this
         simp only [List.all_eq_true] at this
         exact this d hd
-    · cases hd
-  · cases hd
 
 theorem progOk_parser (prog : Program) (hp : progOk prog = true) (name : String) (pd : PipeDef)
     (hf : prog.find? name = some pd) : pd.parser = none := by
